@@ -3,6 +3,24 @@
 #define V_MISC_MODEL_H
 struct v_str { size_t size; int tag; };          /* contents abstract: equal strings have equal (size, tag) */
 static inline _Bool v_str_eq(const struct v_str *a, const struct v_str *b) { return a->size == b->size && a->tag == b->tag; }
+#define V_EXC_INVALID_ARGUMENT 1
+#define V_EXC_OUT_OF_RANGE 3
+static inline struct v_str v_str_any(void) { struct v_str r; __CPROVER_assume(r.size < V_MAXSZ); return r; }
+#define V_EXC_LENGTH_ERROR 5
+static inline struct v_str v_str_n(size_t n) { struct v_str r; r.size = n; if (n >= V_MAXSZ) { __exc = V_EXC_LENGTH_ERROR; r.size = 0; } return r; }   /* string(n, ch): absurd sizes throw */
+static inline struct v_str v_str_substr(const struct v_str *s) { struct v_str r; __CPROVER_assume(r.size <= s->size); return r; }   /* pos <= size is the caller's business */
+static inline struct v_str v_str_cat(const struct v_str *a, const struct v_str *b) { struct v_str r; __CPROVER_assume(r.size < V_MAXSZ && (a == 0 || r.size >= a->size) && (b == 0 || r.size >= b->size)); return r; }
+static inline _Bool v_str_eq_lit(const struct v_str *s) { (void)s; _Bool r; return r; }
+static inline void v_str_clear(struct v_str *s) { s->size = 0; s->tag = 0; }
+static inline char v_str_char(const struct v_str *s, size_t i) { __CPROVER_assert(i <= s->size, "std::string::operator[] index within [0, size]"); char c; return c; }
+static inline void v_str_pop_back(struct v_str *s) { __CPROVER_assert(s->size > 0, "std::string::pop_back on a non-empty string"); s->size--; int t; s->tag = t; }
+static inline void v_str_erase(struct v_str *s, size_t pos, size_t n) { if (pos > s->size) { __exc = V_EXC_OUT_OF_RANGE; return; } size_t k = n < s->size - pos ? n : s->size - pos; s->size -= k; int t; s->tag = t; }
+static inline void v_str_insert(struct v_str *s, size_t pos) { if (pos > s->size) { __exc = V_EXC_OUT_OF_RANGE; return; } s->size++; int t; s->tag = t; }
+static inline void v_str_push_back(struct v_str *s) { s->size++; int t; s->tag = t; }
+/* std::stoi: any int, or one of the two exceptions the standard names */
+static inline int v_stoi(const struct v_str *s) { (void)s; int r; unsigned char c; if (c == 1) { __exc = V_EXC_INVALID_ARGUMENT; return 0; } if (c == 2) { __exc = V_EXC_OUT_OF_RANGE; return 0; } return r; }
+struct v_sstream { size_t n; };
+static inline struct v_sstream *v_ss_put(struct v_sstream *s, int x) { (void)x; s->n++; return s; }
 struct v_json { char opaque; };
 static inline _Bool v_json_contains(const struct v_json *j) { (void)j; _Bool r; return r; }      /* any answer */
 static struct v_json v_json_any;
